@@ -131,6 +131,8 @@ def fold(e, bind):
                 return lit(tuple(r) if isinstance(r, list) else r)
             if allc and name == 'in' and len(args) == 2:
                 return lit(args[0][1] in args[1][1])
+            if allc and name in ('py.int', 'py.float', 'py.bool') and len(args) == 1:
+                return lit({'py.int': int, 'py.float': float, 'py.bool': bool}[name](args[0][1]))
             if allc and name == 'py.str' and len(args) == 1:
                 return lit(str(args[0][1]))
             if allc and name == 'fstr':
